@@ -13,6 +13,7 @@ import (
 	"os"
 	"os/exec"
 	"path/filepath"
+	"regexp"
 	"sort"
 	"strconv"
 	"strings"
@@ -267,6 +268,14 @@ func main() {
 	}
 	wg.Wait()
 
+	// ---- native coverage-guided fuzz leg (thorough tier only) ----
+	var fuzzExecs int64
+	var fuzzViolations []harness.Violation
+	var fuzzInfra []string
+	if tier == "thorough" && fuzzable[id] && os.Getenv("VERIF_NOFUZZ") == "" {
+		fuzzExecs, fuzzViolations, fuzzInfra = runFuzz(id, fuzzTime(id))
+	}
+
 	// ---- merge ----
 	var (
 		evals      int64
@@ -337,6 +346,8 @@ func main() {
 			}
 		}
 	}
+	violations = append(violations, fuzzViolations...)
+	infra = append(infra, fuzzInfra...)
 	// de-duplicate violations by first signature
 	seenSig := map[string]bool{}
 	var uniq []harness.Violation
@@ -379,6 +390,9 @@ func main() {
 	}
 	for k, v := range extra {
 		cov[k] = v
+	}
+	if tier == "thorough" && fuzzable[id] {
+		cov["fuzz_execs"] = fuzzExecs
 	}
 	if assumptions == nil {
 		assumptions = []string{}
@@ -426,6 +440,57 @@ func main() {
 		os.Exit(2)
 	}
 	os.Exit(0)
+}
+
+var fuzzable = map[string]bool{"C01": true, "C03": true, "C04": true, "C05": true, "C06": true, "C09": true, "C10": true, "C11": true, "C12": true, "C13": true, "C14": true, "C15": true, "C20": true}
+
+func fuzzTime(id string) time.Duration {
+	if s := os.Getenv("VERIF_FUZZTIME"); s != "" {
+		if d, err := time.ParseDuration(s); err == nil {
+			return d
+		}
+	}
+	return 60 * time.Second
+}
+
+var execsRe = regexp.MustCompile(`execs: (\d+)`)
+var fuzzVioRe = regexp.MustCompile(`FUZZ-VIOLATION property=(\S+) replay=(\S+)`)
+
+// runFuzz runs the native fuzz target of the props package for one property.
+func runFuzz(id string, d time.Duration) (execs int64, vs []harness.Violation, infra []string) {
+	fuzzDir := filepath.Join(root(), "props", "testdata", "fuzz")
+	_ = os.RemoveAll(fuzzDir)
+	defer os.RemoveAll(fuzzDir)
+	cache := filepath.Join(root(), ".build", "fuzzcache", id)
+	_ = os.RemoveAll(cache)
+	defer os.RemoveAll(cache)
+	ctx, cancel := context.WithTimeout(context.Background(), d+5*time.Minute)
+	defer cancel()
+	args := []string{"test", "-tags", "verif", "-run", "^$", "-fuzz", "^FuzzOracle$", "-fuzztime", d.String(), "-test.fuzzcachedir", cache, "./props"}
+	cmd := exec.CommandContext(ctx, "go", args...)
+	cmd.Dir = root()
+	cmd.Env = append(goEnv(), "VERIF_PROP="+id, "VERIF_ROOT="+root(), "VERIF_TIER=thorough")
+	out, err := cmd.CombinedOutput()
+	text := string(out)
+	for _, m := range execsRe.FindAllStringSubmatch(text, -1) {
+		if n, e := strconv.ParseInt(m[1], 10, 64); e == nil && n > execs {
+			execs = n
+		}
+	}
+	seen := map[string]bool{}
+	for _, m := range fuzzVioRe.FindAllStringSubmatch(text, -1) {
+		if seen[m[2]] {
+			continue
+		}
+		seen[m[2]] = true
+		if cs, e := harness.LoadCase(m[2]); e == nil {
+			vs = append(vs, harness.Violation{Case: cs, Replay: m[2]})
+		}
+	}
+	if err != nil && len(vs) == 0 {
+		infra = append(infra, fmt.Sprintf("native fuzz leg failed without an oracle violation: %v\n%s", err, tail(text, 2000)))
+	}
+	return
 }
 
 func sum(m map[string]int64) int64 {
